@@ -2010,9 +2010,9 @@ def setitem_array(out_name, array, indices, value):
 
             value_indices[i] = slice(start, stop, -1)
 
-        if value_ndim > len(indices):
-            # The assignment value has more dimensions than array, so
-            # add a leading Ellipsis to the indices of value.
+        if value_offset:
+            # The assignment value has more dimensions than the indexed
+            # selection, so add a leading Ellipsis to the indices of value.
             value_indices.insert(0, Ellipsis)
 
         # Create the part of the full assignment value that is to be
